@@ -206,6 +206,8 @@ except ImportError:
 try:
     import impl_train
     HANDLERS.update(impl_train.HANDLERS)
+    import impl_train_fol
+    HANDLERS.update(impl_train_fol.HANDLERS)
 except ImportError:
     pass
 
